@@ -166,6 +166,20 @@ def _worker(job):
                             snap["%s.%s.%s" % (name, k, ck_)] = dg(cv, 2)
                         else:
                             snap["%s.%s.%s" % (name, k, ck_)] = (type(cv).__name__, id(cv))
+        # contents of the tabulated objects: every SpaceGroup of SpaceGroupList (scalar fields, identity and length of
+        # symop_list, identity and values of R and t of every SymOp)
+        for _i, _g in enumerate(_sgs.SpaceGroupList):
+            _nm = "diffpy.structure.spacegroups.SpaceGroupList[%d #%s]" % (_i, getattr(_g, "number", "?"))
+            snap[_nm + ".fields"] = (id(_g),) + tuple(sorted((k, repr(x) if type(x) in _BASIC else "%s@%d" % (type(x).__name__, id(x)))
+                                                             for k, x in vars(_g).items()))
+            _ops = getattr(_g, "symop_list", None)
+            if isinstance(_ops, list):
+                snap[_nm + ".symops"] = (id(_ops), len(_ops), tuple(
+                    (id(o), id(o.R), o.R.tobytes(), id(o.t), o.t.tobytes()) if hasattr(o, "R") and hasattr(o.R, "tobytes") else (id(o), repr(o))
+                    for o in _ops))
+            else:
+                snap[_nm + ".symops"] = repr(type(_ops))
+        snap["diffpy.structure.spacegroups.SpaceGroupList.len"] = (id(_sgs.SpaceGroupList), len(_sgs.SpaceGroupList))
         try:
             import CifFile.yapps3_compiled_rt as _y
             snap["CifFile.yapps3_compiled_rt.print_error"] = (getattr(_y.print_error, "__qualname__", "?"), id(_y.print_error))
@@ -200,7 +214,12 @@ def _worker(job):
         out = []
         for k in a:
             if k in b and a[k] != b[k]:
-                out.append(k)
+                if k.endswith(".fields") and isinstance(a[k], tuple) and isinstance(b[k], tuple):
+                    da, db = dict(a[k][1:]), dict(b[k][1:])
+                    names = sorted(n for n in set(da) | set(db) if da.get(n) != db.get(n)) or ["<identity>"]
+                    out.append("%s: %s" % (k[:-len(".fields")], ", ".join("%s %s -> %s" % (n, da.get(n), db.get(n)) for n in names[:3])))
+                else:
+                    out.append(k)
         # attributes that disappeared / appeared in modules present before
         mods_a = {k.rsplit(".", 1)[0] for k in a}
         for k in b:
@@ -256,7 +275,7 @@ def _worker(job):
         changed = snap_diff(state["snap"], after)
         state["snap"] = after
         if changed:
-            viol.append(["global-state", changed[:8]])
+            viol.append(["global-state", sorted(changed, key=lambda c: (not c.startswith("diffpy.structure.spacegroups.SpaceGroupList["), c))[:8]])
         return out, viol
 
     res_ops = []
@@ -442,6 +461,62 @@ Zn1 0.01 0.01 0.02 0.005 0 0
 """
 
 
+def render_op(op):
+    """x,y,z text of a SymOp of the tables (entries -1,0,1; translations in 24ths)"""
+    rows = []
+    for i in range(3):
+        t = ""
+        for j, c in enumerate("xyz"):
+            v = int(round(float(op.R[i][j])))
+            if v:
+                t += ("+" if v > 0 else "-") + c * 1 if abs(v) == 1 else "%+d*%s" % (v, c)
+        f = Fraction(float(op.t[i])).limit_denominator(24)
+        if f:
+            t += "+%d/%d" % (f.numerator, f.denominator)
+        rows.append(t.lstrip("+") or "0")
+    return ",".join(rows)
+
+
+def tabulated_setting_cifs(quick):
+    """CIF documents that resolve to a predefined SpaceGroup instance by IT number only, by H-M symbol only and by
+    the operator list in table order, carrying crystal-system / cell-setting words that differ from the table."""
+    from diffpy.structure.spacegroups import GetSpaceGroup
+
+    cells = {166: (5.0, 5.0, 12.0, 90, 90, 120), 194: (3.2, 3.2, 5.2, 90, 90, 120), 225: (4.0, 4.0, 4.0, 90, 90, 90),
+             62: (5.0, 6.0, 7.0, 90, 90, 90), 14: (5.0, 6.0, 7.0, 90, 105, 90), 1: (5.0, 6.0, 7.0, 80, 95, 100)}
+    words = ["rhombohedral", "trigonal", "hexagonal", "cubic", "arbitrary words here", "__import__('os').mkdir('PWNED')", "?", ""]
+    tags = ["_symmetry_cell_setting", "_space_group_crystal_system"]
+    docs = []
+    numbers = [166, 194, 225] if quick else [166, 194, 225, 62, 14, 1]
+    for n in numbers:
+        sg = GetSpaceGroup(n)
+        a, b, c, al, be, ga = cells[n]
+        head = ("data_t%d\n_cell_length_a %g\n_cell_length_b %g\n_cell_length_c %g\n_cell_angle_alpha %g\n_cell_angle_beta %g\n"
+                "_cell_angle_gamma %g\n" % (n, a, b, c, al, be, ga))
+        site = "loop_\n_atom_site_label\n_atom_site_fract_x\n_atom_site_fract_y\n_atom_site_fract_z\nC1 0.1 0.2 0.3\n"
+        oploop = "loop_\n_symmetry_equiv_pos_as_xyz\n" + "".join("'%s'\n" % render_op(o) for o in sg.symop_list)
+        ways = {
+            "number": "_symmetry_Int_Tables_number %d\n" % n,
+            "number-new-tag": "_space_group_IT_number %d\n" % n,
+            "hm": "_symmetry_space_group_name_H-M '%s'\n" % sg.short_name,
+            "hm-full": "_space_group_name_H-M_alt '%s'\n" % sg.pdb_name,
+            "ops": oploop,
+            "ops+hall": "_space_group_name_Hall '-R 3 2\"'\n" + oploop,
+            "hall+number": "_symmetry_space_group_name_Hall '%s'\n_symmetry_Int_Tables_number %d\n" % ("P 2ac 2ab", n),
+        }
+        for wi, (way, ident) in enumerate(sorted(ways.items())):
+            for ti, tag in enumerate(tags):
+                for ki, w in enumerate(words):
+                    if quick and (wi + ti + ki) % 2 and w not in ("rhombohedral", "trigonal"):
+                        continue
+                    val = "'%s'" % w if "'" not in w else '"%s"' % w
+                    if w == "":
+                        val = "''"
+                    text = head + ident + "%s %s\n" % (tag, val) + site
+                    docs.append({"fmt": "cif", "text": text, "pos": ["tabulated-setting", n, way, tag], "payload": w, "mode": way})
+    return docs
+
+
 def adversarial_docs(ck, base_docs):
     """payloads in every field position (whitespace token) of every line of a valid document per format"""
     rng = ck.rng
@@ -502,6 +577,7 @@ def adversarial_docs(ck, base_docs):
                 t2 = xc[0][:mm.start()] + mass + "\n" + sym + xc[0][mm.end():]
                 special.append({"fmt": "xcfg", "text": t2, "pos": ["species"], "payload": "%s %s" % (mass, sym), "mode": "species", "write": "xcfg"})
                 special.append({"fmt": "auto", "text": t2, "pos": ["species"], "payload": "%s %s" % (mass, sym), "mode": "species", "write": "xcfg"})
+    special += tabulated_setting_cifs(quick)
     # documents that make the parser RAISE (a hook or redirection must be restored on the error path too)
     for fmt in ("cif", "auto", "xcfg", "pdb", "discus", "pdffit", "xyz", "rawxyz"):
         for junk in ("garbage text 1 2 3\n", "data_x\n_cell_length_a 'unterminated\n", "", "loop_\n_a\n_b\n1\n", "\x00\x01\x02\n"):
@@ -515,7 +591,7 @@ def adversarial_docs(ck, base_docs):
         keep, per = [], {}
         for d in docs:
             k = d["fmt"]
-            if per.get(k, 0) < 90 or d["pos"] in (["symop"], ["auxiliary-name"], ["species"], ["junk"], ["valid-after-errors"]):
+            if per.get(k, 0) < 90 or d["pos"] in (["symop"], ["auxiliary-name"], ["species"], ["junk"], ["valid-after-errors"]) or d["pos"][:1] == ["tabulated-setting"]:
                 keep.append(d)
                 per[k] = per.get(k, 0) + 1
         docs = keep
@@ -590,7 +666,14 @@ def viol_key(where, viol):
     real = [v for v in viol if v[0] != "global-state"]
     if real:
         return "audit:%s:%s" % (where, real[0][0])
-    what = viol[0][1][0].replace(" (new)", "").replace(" (deleted)", "")
+    items = viol[0][1]
+    for it in items:
+        if it.startswith("diffpy.structure.spacegroups.SpaceGroupList["):
+            # a tabulated SpaceGroup object was modified: name the field (or the operation list)
+            if ": " in it:
+                return "global-state:SpaceGroupList.%s" % it.split(": ", 1)[1].split(" ")[0]
+            return "global-state:SpaceGroupList.%s" % it.rsplit(".", 1)[-1]
+    what = items[0].replace(" (new)", "").replace(" (deleted)", "")
     return "global-state:%s" % what
 
 
